@@ -21,7 +21,7 @@ LEVEL = 'exploration'
 RULE = ('blocks = core {cyclic contraction, acyclic} x alias target {simultaneous, constant, lagged, exogenous, time} x chain '
         'length 1..3 x declaration order {forward, reverse} x alias user {none, +1, mixed} x decorative tree {none, tree} x '
         'initial condition on {none, first alias, last alias, target, user, decorative, lag variable, constant} x lag taken of '
-        '{none, last alias, user, decorative}; each solved with reduction on and off; oracle: same variable set, k=0 exactly equal, '
+        '{none, last alias, user, decorative} (+ int-valued decorative constants in every block; + the initial steady-state search switched on for the stable cores); each solved with reduction on and off; oracle: same variable set, k=0 exactly equal, '
         'k>=1 bit-for-bit for acyclic cores and within a gap (<=1e-6 rel. holds, >=1e-4 rel. violated) for cyclic cores solved at '
         'tolerance 1e-10; non-trivial = blocks in which the reduced run actually moved or substituted variables')
 ASSUMPTIONS = [
@@ -43,6 +43,9 @@ def make_block(corek, target, L, order, user, tree, icpos, lagof, horizon):
     else:
         eqs += [('x', '3*t + g'), ('y', '2*x + c')]
     eqs.append(('c', '2.5'))
+    # unreferenced constants written as Python ints / int-valued expressions (time-zero pass must treat them like floats)
+    eqs.append(('ni', '3'))
+    eqs.append(('nb', '2*6 + c*0'))
     chain = []
     prev = target
     for i in range(1, L + 1):
@@ -78,21 +81,25 @@ def make_block(corek, target, L, order, user, tree, icpos, lagof, horizon):
     return Block(alleqs, lags=lags, ics=ics, exos=[('g', '[1., 2., 4., 8., 16., 32.]')], maxtime=horizon, tol='1e-10')
 
 
-def solve(block, red):
+def solve(block, red, steady=False):
     s = EquationSolver(block.text(), run_equation_reduction=red)
     s.MaxIterations = 2000
+    if steady:
+        s.ParameterSolveInitialSteadyState = True
+        s.ParameterInitialSteadyStateMaxTime = 60
+        s.ParameterInitialSteadyStateErrorToler = 1e-9
     s.SolveEquation()
     return s
 
 
-def compare(block, exact_required, case):
+def compare(block, exact_required, case, steady=False):
     try:
-        a = solve(block, True)
+        a = solve(block, True, steady)
     except Exception as e:
         ea = e
         a = None
     try:
-        b = solve(block, False)
+        b = solve(block, False, steady)
     except Exception as e:
         eb = e
         b = None
@@ -168,6 +175,19 @@ def run_unit(unit, tier):
             res['violations'].append(v)
         if not res['samples']:
             res['samples'].append({'block': blk.text()})
+        # configuration: the optional initial steady-state search in front of the solve (cyclic = stable cores only)
+        if unit['core'] == 'cyclic' and icpos in ('none', 'a1') and tree:
+            case2 = {'features': dict(feats, steady=True), 'text': blk.text()}
+            dig.add((blk.key(), 'steady'))
+            outcome, v, moved = compare(blk, False, case2, steady=True)
+            res['evaluations'] += 1
+            if moved:
+                res['nontrivial'] += 1
+            if outcome == 'indeterminate':
+                res['indeterminate'] += 1
+            core.bump(res['outcomes'], unit['core'] + ':steady:' + outcome)
+            if v:
+                res['violations'].append(v)
     best = {}
     for v in res['violations']:
         best.setdefault(v['key'], v)
@@ -179,5 +199,5 @@ def run_unit(unit, tier):
 def replay(case):
     f = case['features']
     blk = make_block(f['core'], f['target'], f['L'], f['order'], f['user'], f['tree'], f['icpos'], f['lagof'], f['horizon'])
-    o, v, m = compare(blk, f['core'] == 'acyclic', case)
+    o, v, m = compare(blk, f['core'] == 'acyclic' and not f.get('steady'), case, steady=bool(f.get('steady')))
     return [v] if v else []
